@@ -96,6 +96,18 @@ var specs = map[string]spec{
 		},
 		Assumptions: commonAssumptions, Plain: true, QuickStride: 1, ThoroughStride: 1, QuickDeadline: 420, ThoroughDeadline: 3000,
 	},
+	"C12": {
+		LevelText: "exhaustive fault enumeration: for every template of the set (hand-picked ones covering every write site plus bodies of the C02 grammar) the fault-free render is recorded (k write calls, B bytes); then a failure is injected at every call index (once, and persistently) and at every byte capacity 0..B-1 (short write plus error); every faulty render must return an error and the accepted bytes must be a prefix of the fault-free output",
+		LevelNote: "exhaustive over fault points of the recorded run for each template and data set; templates and data are a fixed finite set; renders that fail without faults are out of scope (C06)",
+		Technique: "exhaustive fault-point enumeration on the real renderer through a fault-injecting io.Writer (call index x {once, forever}, byte capacity)",
+		Level:     "fault_enumeration",
+		Rule:      "a case is a (template, data, message bundle or not) triple; evaluations counts cases, counter fault_runs counts faulty renders; non-trivial = the fault-free render performs at least one write call",
+		Bounds: map[string]string{
+			"quick":    "19 hand-written templates x 3 data sets x {no bundle, identity bundle} + first 1500 bodies of the C02 grammar; all 2k+B fault points each",
+			"thorough": "first 30000 bodies of the C02 grammar",
+		},
+		Assumptions: commonAssumptions, Plain: true, QuickStride: 1, ThoroughStride: 1, QuickDeadline: 420, ThoroughDeadline: 3000,
+	},
 	"C05": {
 		LevelText: "bounded exhaustive exploration of the real parser: every input of the stated small scopes is parsed under a controlled scheduler with a deterministic linear fuel bound (no wall clock), and small inputs under every parser/scanner interleaving up to 2 preemptions; termination, no panic, no deadlock and tree-xor-error are checked on every execution and every case is replayed on the uninstrumented build",
 		LevelNote: "assumes the bounded scopes are representative (small-scope hypothesis) and that the overlay instrumentation preserves behaviour (cross-checked case by case against the plain build)",
